@@ -828,7 +828,9 @@ fn check_model(space: &str, m: &DumpModel, l: &mut Local) {
 
 use std::sync::Arc;
 
-const NAMES: [&str; 6] = ["", "\u{1F600}\u{10FFFF}x\u{e9}\u{4e2d}", "with\0nul.dll", "libfoo.so.6", "caf\u{e9} \u{4e2d}\u{6587}.dll", "C:\\Program Files\\x y.exe"];
+// the last four start like a byte-order mark in one byte order or the other (U+FEFF, its mirror U+FFFE, and units
+// whose bytes spell the UTF-8 mark EF BB BF little- / big-endian): a name is data, nothing in it is a mark
+const NAMES: [&str; 10] = ["", "\u{1F600}\u{10FFFF}x\u{e9}\u{4e2d}", "with\0nul.dll", "libfoo.so.6", "caf\u{e9} \u{4e2d}\u{6587}.dll", "C:\\Program Files\\x y.exe", "\u{feff}bom.dll", "\u{fffe}worker", "\u{bbef}\u{bf}pool", "\u{efbb}\u{bf00}pool"];
 const TOP: u64 = u64::MAX;
 const MID: u64 = 0x1_0000_0000;
 
@@ -1030,7 +1032,7 @@ fn small(kind: usize, v: usize, cpu: CpuKind, cvs: &[Cv]) -> StreamM {
             StreamM::SystemInfo(s)
         }
         "threads" => StreamM::Threads { items: (0..v + 1).map(|i| mk_thread(i, v, cpu)).collect(), pad4: v == 1 },
-        "thread_names" => StreamM::ThreadNames { items: (0..v + 1).map(|i| (100 + i as u32, format!("{}{v}", NAMES[(i + v) % 6]))).collect(), pad4: v == 2 },
+        "thread_names" => StreamM::ThreadNames { items: (0..v + 1).map(|i| (100 + i as u32, format!("{}{v}", NAMES[(i + v) % NAMES.len()]))).collect(), pad4: v == 2 },
         "modules" => StreamM::Modules { items: (0..v + 2).map(|i| mk_module(i, v, v + 2, cvs)).collect(), pad4: v == 1 },
         "unloaded" => StreamM::Unloaded { items: (0..v + 1).map(|i| mk_unloaded(i, v)).collect(), header: 12 },
         "memory" => StreamM::Memory { items: (0..v + 1).map(|i| mk_region(i, v)).collect(), pad4: v == 2 },
@@ -1067,7 +1069,7 @@ fn space(name: &'static str, len: u64, gen: impl Fn(u64) -> (DumpModel, Value) +
 fn space_modules(tier: Tier) -> Space {
     let cvs = Arc::new(cv_menu(tier));
     let places: Vec<(u64, u32)> = take(tier, 3, &[(MID, 0x1_0000), (0, 1), (TOP - 0x1000, 0x1000), (1, u32::MAX), (TOP - 1, 1)]);
-    let names = take(tier, 3, &NAMES);
+    let names = take(tier, 3, &[NAMES[0], NAMES[1], NAMES[7], NAMES[2], NAMES[3], NAMES[4], NAMES[5], NAMES[6], NAMES[8], NAMES[9]]);
     let oses: Vec<Option<u32>> = take(tier, 4, &[Some(3), Some(0x8201), Some(0x8101), None, Some(0x8102), Some(0x8203), Some(2), Some(0), Some(0x8202), Some(0x8204), Some(0x8205), Some(u32::MAX)]);
     let vers = take(tier, 3, &versions());
     let stamps = [0x5000_0001u32, 0, u32::MAX];
@@ -1253,7 +1255,7 @@ fn space_lengths(tier: Tier) -> Space {
         let header = if alt { 32 } else { 12 };
         let s = match LIST_KINDS[d[0] as usize] {
             "threads" => StreamM::Threads { items: (0..n).map(|i| mk_thread(i, p, cpu)).collect(), pad4: alt },
-            "thread_names" => StreamM::ThreadNames { items: (0..n).map(|i| (if i % 2 == 0 { i as u32 } else { u32::MAX - i as u32 }, format!("{}{i}", NAMES[(i + p) % 6]))).collect(), pad4: alt },
+            "thread_names" => StreamM::ThreadNames { items: (0..n).map(|i| (if i % 2 == 0 { i as u32 } else { u32::MAX - i as u32 }, format!("{}{i}", NAMES[(i + p) % NAMES.len()]))).collect(), pad4: alt },
             "modules" => StreamM::Modules { items: (0..n).map(|i| mk_module(i, p, n, &cvs)).collect(), pad4: alt },
             "unloaded" => StreamM::Unloaded { items: (0..n).map(|i| mk_unloaded(i, p)).collect(), header },
             "memory" => StreamM::Memory { items: (0..n).map(|i| mk_region(i, p)).collect(), pad4: alt },
